@@ -474,6 +474,10 @@ func (f *Filter) setLowerCaseColumn() {
 	default:
 		return
 	}
+	// lower casing the pattern would change the meaning of escape sequences like \S, \D or \W
+	if (f.operator == RegexNoCaseMatch || f.operator == RegexNoCaseMatchNot) && strings.Contains(f.stringVal, "\\") {
+		return
+	}
 	col, ok := table.columnsIndex[col.Name+"_lc"]
 	if !ok {
 		return
